@@ -137,6 +137,18 @@ def gen_corruptions():
     return out
 
 
+def genbasic_corruptions():
+    sd = record.canonical(mkcfg("SingleDiskCopy", N=3, passes=2))
+    out = [("valid SingleDisk trace is the behaviour of GenBasic", sd, None)]
+    t = copy.deepcopy(sd)
+    t["ev"][first(t, is_act(1), 1)][10] += 1
+    out.append(("genbasic: reported r differs from the model", t, "GEN.drift"))
+    t = copy.deepcopy(sd)
+    t["ev"][first(t, is_act(2))][2] = 3
+    out.append(("genbasic: Copy emitted as Move", t, "GEN.drift"))
+    return out
+
+
 def main():
     ctx = fw.Ctx("SELFTEST", "quick", 0)
     cases = corruptions()
@@ -147,9 +159,11 @@ def main():
         verdicts += fw.validate(ctx, [t for _, t, _ in ocases], module="TraceOps", tag="ops")
         gcases = gen_corruptions()
         verdicts += fw.validate(ctx, [t for _, t, _ in gcases], module="TraceGenTwoLevel", tag="gtl")
+        bcases = genbasic_corruptions()
+        verdicts += fw.validate(ctx, [t for _, t, _ in bcases], module="TraceGenBasic", tag="gb")
     finally:
         ctx.cleanup()
-    cases = cases + ocases + gcases
+    cases = cases + ocases + gcases + bcases
     bad = 0
     for (name, t, expect), v in zip(cases, verdicts):
         got = sorted({c for c, _, _ in v["viol"]})
